@@ -409,7 +409,7 @@ func coefOfAtom(p Poly, re *regexp.Regexp) (int64, bool) {
 
 func init() {
 	register(&Rule{Name: "cmp.spec", Floor: 40,
-		Doc: "each boundary comparison of the specification that zrnt implements (listed in the checker with the spec's formulation) is present in its function with the spec's operator and the spec's integer offset, after normalising both sides to `lhs - rhs` over the operand leaves (so `a+1 < b`, `a < b-1` and `b-1 > a` are the same comparison, while `<` vs `<=` or a dropped `+1` is not)",
+		Doc: "each boundary comparison of the specification that zrnt implements (252 reviewed entries: function, operands, operator, integer offset, the spec's wording) is made in its function — or in an unexported helper it calls, read at the call site with the arguments in place of the parameters — with the spec's CUT (`a < b`, `b > a`, `!(a >= b)`, `a <= b-1` are one cut; `<` for `<=` or a dropped +1 is another) and, where a branch refuses or skips, on the spec's SIDE of it (an inverted test with swapped branches keeps the side, a flipped operator does not; comparisons that only govern actions are read through one recorded field/function/constant of the governed action). Operands are matched by name, failing that in resolved form (locals, alias paths and one-line helpers read through) or type-named resolved form; the reviewed shape over ANOTHER value of the same type is a violation. In five proto-array query functions coverage is closed: a refusing or skipping comparison that no entry accounts for is reported",
 		Run: ruleCmpSpec})
 	if len(os.Args) > 1 && os.Args[1] == "cmps" {
 		p, err := load(loadOpts{repo: dumpRepo()})
@@ -486,7 +486,7 @@ func ruleCmpSpec(c *Ctx) {
 	}
 	// pre-pass: comparisons that some entry accounts for are never near-miss candidates of another entry
 	claimed := map[token.Pos]bool{}
-	accounted := map[token.Pos]bool{} // sites an entry settled on through the renamed / resolved fallback
+	accounted := map[token.Pos]bool{}  // sites an entry settled on through the renamed / resolved fallback
 	claimedOwn := map[token.Pos]bool{} // accounted for by an entry of the function the comparison is written in
 	claimedByOther := map[token.Pos]bool{}
 	for _, gk := range order {
